@@ -41,8 +41,8 @@ func (c Config) String() string {
 
 // World is the resolved program of one configuration.
 type World struct {
-	idxErrPaths []idxErrPath // scratch of pxIndexRun: error returns of the last exploration
-	idxPX *PX
+	idxErrPaths     []idxErrPath // scratch of pxIndexRun: error returns of the last exploration
+	idxPX           *PX
 	inputParam      map[*ssa.Parameter]bool // rules_num.go: parameters holding (parts of) the value being encoded
 	fmtFwd          map[*ssa.Function]bool  // rules_fmtwalk.go: in-package functions forwarding variadic operands to fmt
 	Cfg             Config
